@@ -26,6 +26,21 @@ def innermost_common_for(a: Operation, b: Operation) -> scf.ForOp | None:
     return None
 
 
+def still_to_sync_after_barrier(ops_to_sync: list[Operation], barrier_position: Operation) -> list[Operation]:
+    """A barrier only covers the operations that follow it in its own block (at any depth).
+    Operations outside of that block can be reached without executing the barrier
+    (untaken scf.if branch, loop with zero iterations), so they still need their own."""
+    block = barrier_position.parent_block()
+    remaining: list[Operation] = []
+    for op in ops_to_sync:
+        ancestor: Operation | None = op
+        while ancestor is not None and ancestor.parent_block() is not block:
+            ancestor = ancestor.parent_op()
+        if ancestor is None:
+            remaining.append(op)
+    return remaining
+
+
 class InsertSyncBarrier(ModulePass):
     """This pass inserts  snax synchronisation barriers in a program.
     Synchronisation barriers are required when data is shared between
@@ -49,11 +64,11 @@ class InsertSyncBarrier(ModulePass):
                 rewriter.insert_op(sync_op, InsertPoint.before(op_in_module))
 
                 # clear the list
-                ops_to_sync = []
+                ops_to_sync = still_to_sync_after_barrier(ops_to_sync, op_in_module)
 
             if isinstance(op_in_module, snax.ClusterSyncOp):
                 # synchronisation ok, clear list
-                ops_to_sync: list[Operation] = []
+                ops_to_sync: list[Operation] = still_to_sync_after_barrier(ops_to_sync, op_in_module)
 
             # check all operands of current op
             for operand in [*op_in_module.operands, *op_in_module.results]:
